@@ -176,7 +176,13 @@ fn run_point(ctx: &mut Ctx, p: &Point) -> Option<(String, String)> {
         }
         pos += n;
     }
-    match p.big {
+    // an argument that cannot fit the kernel's budget next to this environment and the initial
+    // arguments may be refused (exit 1, diagnostic, never handed to exec)
+    let env_cost: usize = env_for(p.env).iter().map(|(k, v)| k.len() + v.len() + 2 + 8).sum::<usize>() + 200;
+    let init_cost: usize = initial.iter().map(|a| a.len() + 9).sum::<usize>() + vrec.as_os_str().len() + log.as_os_str().len() + 18;
+    let longest = (0..nargs.min(4)).map(|i| arg_for(p.len, i).len()).max().unwrap_or(0);
+    let may_refuse_first = if p.big.is_none() && longest + 9 + env_cost + init_cost + 2048 > budget as usize { Some((0usize, longest)) } else { None };
+    match p.big.or(may_refuse_first) {
         None => {
             if o.code != Some(0) {
                 return Some((format!("C06 exit status {:?} on an input of ordinary arguments", o.code), detail(format!("{pos} of {nargs} arguments delivered"))));
@@ -192,6 +198,7 @@ fn run_point(ctx: &mut Ctx, p: &Point) -> Option<(String, String)> {
                 }
                 ctx.rep.count("single_big_argument_delivered", 1);
             } else if o.code == Some(1) {
+                let bp = if p.big.is_some() { bp } else { (0..nargs).find(|i| arg_for(p.len, *i).len() == longest).unwrap_or(0) };
                 if pos > bp {
                     return Some(("C06 exit 1 but the oversized argument was handed to exec".into(), detail(format!("{pos} arguments delivered, big one at #{bp}"))));
                 }
